@@ -10,7 +10,7 @@ use crate::classic::clvm::__type_compatibility__::{bi_one, bi_zero};
 use crate::classic::clvm_tools::stages::stage_0::TRunProgram;
 
 use crate::compiler::clvm::{run, truthy};
-use crate::compiler::codegen::{codegen, hoist_assign_form};
+use crate::compiler::codegen::{codegen, desugar_nested_mod, hoist_assign_form};
 use crate::compiler::compiler::is_at_capture;
 use crate::compiler::comptypes::{
     Binding, BindingPattern, BodyForm, CallSpec, CompileErr, CompileForm, CompilerOpts, DefunData,
@@ -1507,7 +1507,8 @@ impl<'info> Evaluator {
                     &mut symbols,
                     optimizer,
                 );
-                let code = codegen(&mut context_wrapper.context, self.opts.clone(), program)?;
+                let desugared = desugar_nested_mod(program)?;
+                let code = codegen(&mut context_wrapper.context, self.opts.clone(), &desugared)?;
                 Ok(Rc::new(BodyForm::Quoted(code)))
             }
             BodyForm::Lambda(ldata) => self.enrich_lambda_site_info(
